@@ -145,6 +145,7 @@ pub struct Server {
     background_done: bool,
     config: ServerConfig,
     latest_change: Option<(Url, String, i32)>,
+    pending_rescan: Option<Url>,
     work_done_progress: bool,
     incremental: LsIncrementalMap,
 }
@@ -164,6 +165,7 @@ impl Server {
             background_done: true,
             config: ServerConfig::default(),
             latest_change: None,
+            pending_rescan: None,
             work_done_progress: true,
             incremental: LsIncrementalMap::default(),
         }
@@ -230,6 +232,12 @@ impl Server {
                         if self.background_tasks.is_empty() {
                             self.background_done = true;
 
+                            if let Some(url) = self.pending_rescan.take() {
+                                // a rename arrived while this analysis was pending
+                                self.did_rename_files(url);
+                            }
+                        }
+                        if self.background_done {
                             // call did_change after background_done to notify filtered errors
                             if let Some((url, text, version)) = self.latest_change.take() {
                                 self.did_change(&url, &text, version);
@@ -284,8 +292,10 @@ impl Server {
     }
 
     fn did_rename_files(&mut self, new_path: Url) {
-        // Do not dispatch if there's already a pending analysis
+        // Do not dispatch if there's already a pending analysis; the pending
+        // task listed its paths before the rename, so re-scan once it is done.
         if !self.background_done {
+            self.pending_rescan = Some(new_path);
             return;
         }
 
@@ -841,10 +851,22 @@ impl Server {
     }
 
     fn on_remove(&mut self, url: Url) {
-        if let Some(path) = url.to_file_path()
-            && let Some(path_id) = resource_table::get_path_id(path.to_path_buf())
-        {
-            Analyzer::drop_file(path_id, None);
+        if let Some(path) = url.to_file_path() {
+            if let Some(path_id) = resource_table::get_path_id(path.to_path_buf()) {
+                Analyzer::drop_file(path_id, None);
+            }
+            // The path is gone: forget its buffer, so that a file appearing
+            // under it later is analyzed from disk again, and never replay a
+            // change of it after the next background analysis.
+            self.document_map.remove(path.as_ref());
+            self.parser_map.remove(path.as_ref());
+            if self
+                .latest_change
+                .as_ref()
+                .is_some_and(|(x, _, _)| x.to_file_path() == Some(path.clone()))
+            {
+                self.latest_change = None;
+            }
         }
     }
 }
